@@ -9,7 +9,7 @@ operator flips, constant flips, dropped statements, swapped deque ends ...):
 Result per mutant: killed-by-tests / killed-by-check (which) / SURVIVED / harness-error.
 Survivors need reading: many are equivalent (no behavioural change), the others are gaps.
 
-  tools/mutsweep.py src/haiway/utils/queue.py [more files] [--limit N] [--out file.jsonl]
+  tools/mutsweep.py src/haiway/utils/queue.py [more files] [--limit=N] [--lines=85,109] [--out=file.jsonl]
 """
 
 import json
@@ -29,8 +29,8 @@ OWNERS = {
     "helpers/retries.py": ["C14", "C18"],
     "helpers/caching.py": ["C12", "C13", "C18"],
     "types/missing.py": ["C20"],
-    "context/tasks.py": ["C06", "C07"],
-    "context/disposables.py": ["C08"],
+    "context/tasks.py": ["C06", "C07", "C02"],
+    "context/disposables.py": ["C08", "C02"],
     "helpers/asynchrony.py": ["C18"],
     "helpers/tracing.py": ["C18"],
     "utils/mimic.py": ["C18", "C16"],
@@ -117,10 +117,13 @@ def mutants(path: str):
 def main() -> None:  # noqa: C901
     args = [a for a in sys.argv[1:] if not a.startswith("--")]
     limit = None
+    only_lines = None
     out_path = os.path.join(ROOT, "tools", "mutsweep.jsonl")
     for a in sys.argv[1:]:
         if a.startswith("--limit="):
             limit = int(a.split("=", 1)[1])
+        if a.startswith("--lines="):
+            only_lines = {int(x) for x in a.split("=", 1)[1].split(",")}
         if a.startswith("--out="):
             out_path = a.split("=", 1)[1]
     scratch = tempfile.mkdtemp(prefix="hv-mut-")
@@ -142,7 +145,7 @@ def main() -> None:  # noqa: C901
                 original = open(path).read()
                 seen = set()
                 for ln, old, new, op in mutants(path):
-                    if (ln, new) in seen:
+                    if (ln, new) in seen or (only_lines is not None and ln + 1 not in only_lines):
                         continue
                     seen.add((ln, new))
                     if limit is not None and n >= limit:
